@@ -11,6 +11,19 @@
 //   * queued blocks are only produced by rotate_block, at most q <= 2 of them here (bound).
 #![allow(unused_imports, dead_code, clippy::all, static_mut_refs)]
 use super::*;
+/// Build a value field by field on zeroed memory instead of with a struct literal: a field ADDED to the struct by a
+/// change under test (all-zero = its natural initial value for counters / ids / None) must not stop the harness file
+/// from compiling - it would turn every obligation of the property into "inconclusive".
+macro_rules! zeroed_build {
+    ($t:ty { $($f:ident : $v:expr),* $(,)? }) => {{
+        let mut m = std::mem::MaybeUninit::<$t>::zeroed();
+        unsafe {
+            let p = m.as_mut_ptr();
+            $( std::ptr::addr_of_mut!((*p).$f).write($v); )*
+            m.assume_init()
+        }
+    }};
+}
 use crate::storage::wal::{BlockHeader, BlockZeroHeader, RecordHeader};
 use std::os::fd::FromRawFd;
 
@@ -199,7 +212,7 @@ fn flush_pre(q: usize, t_lo: u64, t_hi: u64) -> FlushPre {
     } else {
         (None, std::ptr::null(), 0)
     };
-    let wal = WriteAheadLog { header, current_block, flush_queue: queue, file: fake_dbfile(), block_size: BS };
+    let wal = zeroed_build!(WriteAheadLog { header: header, current_block: current_block, flush_queue: queue, file: fake_dbfile(), block_size: BS });
     FlushPre { wal, t, qptr, cur_ptr, cur_used, has_cur, hdr_ptr, hdr_used }
 }
 fn ev(i: usize) -> Ev {
@@ -471,7 +484,7 @@ fn push_case<const U: usize, const R: usize>(t_lo: u64, t_hi: u64, q: usize, hdr
     } else {
         None
     };
-    let mut wal = WriteAheadLog { header, current_block, flush_queue: queue, file: fake_dbfile(), block_size: BS };
+    let mut wal = zeroed_build!(WriteAheadLog { header: header, current_block: current_block, flush_queue: queue, file: fake_dbfile(), block_size: BS });
 
     // the record
     let w: RecImg<U, R> = RecImg {
@@ -636,7 +649,7 @@ hpush!(c17_push_oversize_fresh, 3960, 0, 1, 1, 0, 0, None, false, Target::Reject
 #[kani::proof]
 #[kani::unwind(4)]
 fn c17_push_max_record_fits() {
-    let wal = WriteAheadLog { header: any_header(1), current_block: None, flush_queue: VecDeque::new(), file: fake_dbfile(), block_size: BS };
+    let wal = zeroed_build!(WriteAheadLog { header: any_header(1), current_block: None, flush_queue: VecDeque::new(), file: fake_dbfile(), block_size: BS });
     let empty = WalBlock::alloc(1, BS);
     kani::cover!(true, "reach");
     let admitted = wal.max_record_size();
@@ -664,7 +677,7 @@ fn c17_push_entries_max() {
     let mut header = any_header(1);
     header.metadata_mut().block_header.used_bytes = 0;
     header.metadata_mut().wal_header.total_entries = u32::MAX;
-    let mut wal = WriteAheadLog { header, current_block: None, flush_queue: VecDeque::new(), file: fake_dbfile(), block_size: BS };
+    let mut wal = zeroed_build!(WriteAheadLog { header: header, current_block: None, flush_queue: VecDeque::new(), file: fake_dbfile(), block_size: BS });
     let rec = OwnedRecord::new(kani::any(), kani::any(), None, None, None, RecordType::Commit, &[], &[]);
     kani::cover!(true, "reach");
     let ok = okf(wal.push(rec)).is_some();
@@ -790,17 +803,22 @@ fn reader_case(n: usize, idx: Option<usize>, off: usize, k: usize, unread: u64) 
         j += 1;
     }
     let mut f = fake_dbfile();
-    let mut reader = WalReader {
-        file: &mut f,
-        header,
-        block_queue: queue,
-        read_ahead_size: k * BS,
-        current_block_offset: off,
-        current_block_index: idx,
-        file_offset: fo_blocks * bs,
-        total_blocks: tb,
-        block_size: BS,
-    };
+    // built field by field on zeroed memory, not with a struct literal: a field added to WalReader by a change under
+    // test (zero = its natural initial value) must not stop the harness from compiling
+    let mut reader_mem = std::mem::MaybeUninit::<WalReader>::zeroed();
+    unsafe {
+        let p = reader_mem.as_mut_ptr();
+        std::ptr::addr_of_mut!((*p).file).write(&mut f);
+        std::ptr::addr_of_mut!((*p).header).write(header);
+        std::ptr::addr_of_mut!((*p).block_queue).write(queue);
+        std::ptr::addr_of_mut!((*p).read_ahead_size).write(k * BS);
+        std::ptr::addr_of_mut!((*p).current_block_offset).write(off);
+        std::ptr::addr_of_mut!((*p).current_block_index).write(idx);
+        std::ptr::addr_of_mut!((*p).file_offset).write(fo_blocks * bs);
+        std::ptr::addr_of_mut!((*p).total_blocks).write(tb);
+        std::ptr::addr_of_mut!((*p).block_size).write(BS);
+    }
+    let mut reader = unsafe { reader_mem.assume_init() };
     kani::cover!(true, "reach");
 
     let (found, rp, rs) = match okf(reader.next_ref()) {
@@ -905,17 +923,22 @@ fn reload_case(k: usize) {
     kani::assume(tb <= 1000 && fo_blocks >= 1 && fo_blocks <= 1001);
     let header = BlockZero::alloc(0, BS);
     let mut f = fake_dbfile();
-    let mut reader = WalReader {
-        file: &mut f,
-        header,
-        block_queue: Vec::with_capacity(2),
-        read_ahead_size: k * BS,
-        current_block_offset: 0,
-        current_block_index: Some(0),
-        file_offset: fo_blocks * bs,
-        total_blocks: tb,
-        block_size: BS,
-    };
+    // built field by field on zeroed memory, not with a struct literal: a field added to WalReader by a change under
+    // test (zero = its natural initial value) must not stop the harness from compiling
+    let mut reader_mem = std::mem::MaybeUninit::<WalReader>::zeroed();
+    unsafe {
+        let p = reader_mem.as_mut_ptr();
+        std::ptr::addr_of_mut!((*p).file).write(&mut f);
+        std::ptr::addr_of_mut!((*p).header).write(header);
+        std::ptr::addr_of_mut!((*p).block_queue).write(Vec::with_capacity(2));
+        std::ptr::addr_of_mut!((*p).read_ahead_size).write(k * BS);
+        std::ptr::addr_of_mut!((*p).current_block_offset).write(0);
+        std::ptr::addr_of_mut!((*p).current_block_index).write(Some(0));
+        std::ptr::addr_of_mut!((*p).file_offset).write(fo_blocks * bs);
+        std::ptr::addr_of_mut!((*p).total_blocks).write(tb);
+        std::ptr::addr_of_mut!((*p).block_size).write(BS);
+    }
+    let mut reader = unsafe { reader_mem.assume_init() };
     kani::cover!(true, "reach");
     let r = okf(reader.reload_blocks());
     let nread = n_ev();
